@@ -317,13 +317,14 @@ def same_or_nan(a, b):
 
 class Config:
     def __init__(self, name, make, dom, model=None, good=None, kind=None,
-                 owner_attrs=None, shadow=None, skip=()):
+                 owner_attrs=None, shadow=None, skip=(), routes=None):
         self.name, self.make, self.dom, self.model = name, make, dom, model
         self.good = good            # label of a valid value (pre-state)
         self.kind = kind or name.split("(")[0]
         self.owner_attrs = owner_attrs or {}
         self.shadow = shadow
         self.skip = set(skip)       # value labels not applied
+        self.no_routes = set(routes or ())   # assignment routes not applied
 
 
 CONFIGS = {}
@@ -802,7 +803,11 @@ def _validated_property_cfgs():
         cfg("Property(%s)" % member,
             lambda c=c: Property(_vp_get, _vp_set, trait=c.make()),
             c.dom, c.model, c.good, kind="Property-validated",
-            skip=c.skip)
+            skip=c.skip,
+            # through PrototypedFrom the setter runs on the deferring object
+            # while reads go to the prototype's getter: what is read back is
+            # the prototype's own state, which this route never assigned
+            routes=("proto",))
 
 
 _validated_property_cfgs()
